@@ -40,6 +40,21 @@ def run(ctx, impl_only=False):
         vals += [np.array([1, 2, 3]), {'a': np.array([[1.5, 2.5], [3.5, 4.5]])}]
     except Exception:
         pass
+    rp = FAM.rich_pairs(ctx, 120 if ctx.thorough() else 30)
+    vals += [p[0] for p in rp[:len(rp) // 2]]
+    for (v, w) in rp:
+        for cfg in [ctx.rng.choice(CFGS) for _ in range(2)]:
+            ctx.evaluations += 1
+            case = {'t1': repr(v), 't2': repr(w), 'cfg': cfg, 'clause': 'empty=>equal (rich leaves)'}
+            try:
+                d = DeepDiff(v, w, **cfg)
+            except Exception as e:
+                ctx.violate(case, 'DeepDiff raised %s: %s' % (type(e).__name__, str(e)[:100])); continue
+            if not strict_eq(v, w):
+                ctx.nontriv((repr(v), repr(w), repr(sorted(cfg.items()))))
+            ctx.count('rich_pair:' + ('empty' if not d else 'nonempty'))
+            if not d and not (v == w):
+                ctx.violate(case, 'empty diff although t1 != t2')
     for v in vals:
         snap = copy.deepcopy(v)
         is_np = 'numpy' in repr(type(v)) or 'array(' in repr(v)
